@@ -115,4 +115,27 @@ TEXT = {
         "note": "Trusted: Lean kernel + standard axioms; SQLite; the harness's schema downgrade. Contract-respecting call sequences only.",
         "technique": "Lean 4 proof (refinement to an abstract storage spec, partial) + three-way correspondence check",
     },
+    "C18": {
+        "level": "Lean theorems: the timestamp accessors are total for every stored value (the pinned code's panic on out-of-range integers is "
+                 "kept as a machine-checked counterexample, and the repair is shown conservative); unparsable values read as not set; malformed "
+                 "tag / annotation / dependency keys contribute nothing; statuses are total with an explicit unknown case; every working-set "
+                 "operation of the storage contract keeps slot 0 empty, so WorkingSet::new's assertion cannot fire. Tied to the code by sweeping "
+                 "every read accessor under panic capture over arbitrary stored content, comparing all values with the model, and by comparing "
+                 "the panic-site inventory of the anchored source files with the reviewed list.",
+        "design_ref": "DESIGN.md §5 C18",
+        "note": "Trusted: Lean kernel + standard axioms; model tied by correspondence; catch_unwind observes panics; Rust's i64 parsing, chrono's range, Uuid::parse_str and char::is_whitespace as modelled (compared value by value).",
+        "technique": "Lean 4 proof (totality with explicit Outcome for partial Rust operations) + correspondence check + source inventory",
+    },
+    "C19": {
+        "level": "Lean theorems: every mutator is faithful — replaying the operations it records on the object's previous map yields the object's "
+                 "new map and every update carries the true previous value — and faithfulness composes, so for any sequence of mutator calls "
+                 "committing the recorded operations leaves the stored task identical to the object (C19_commit_matches_object); the end rule "
+                 "(set iff absent on completed/deleted, cleared on pending/recurring); modified refreshed once per object and never when set "
+                 "explicitly; reserved names refused with nothing recorded; written values read back and other keys are kept; the dependency "
+                 "map is exactly {(a,b) | a in working set, dep_<b> key parses, b stored with status pending}. Tied to the code by random mutator "
+                 "sequences with the Lean judge replaying the recorded operations.",
+        "design_ref": "DESIGN.md §5 C19",
+        "note": "Trusted as C18; now is a parameter of the model (read by the harness within the same second).",
+        "technique": "Lean 4 proof (per-mutator refinement lemma composed by induction over call sequences; decision logic) + correspondence check",
+    },
 }
